@@ -7,10 +7,19 @@ NOTES = (
     "exit 2 for machinery failures. Known findings: KNOWN_FINDINGS.txt."
 )
 ENGINES = [
+    {"name": "Schema", "path": "spec/Schema.tla", "serves_properties": ["C18"],
+     "kind_free_text": "TLA+ model of MappingSchema (mapping, find cache, normalised-name cache, identifier normalisation strategies) with the cache-free reference Fresh*; TLC exhaustive (Coherent, AnswersOK) + transition emission replayed on the real class"},
     {"name": "Ast", "path": "spec/Ast.tla", "serves_properties": ["C08", "C09", "C12"],
      "kind_free_text": "TLA+ model of the mutable Expression tree (node store, every branch of set/append/replace/pop, hash cache, deepcopy); TLC exhaustive + transition emission; AstTrace.tla evaluates the invariants on recorded real trees"},
 ]
 CHECKS = {
+    "C18": {
+        "engine": "Schema",
+        "design_ref": "DESIGN.md section 5, C18",
+        "technique": "TLA+ model (Schema.tla) checked exhaustively by TLC (cache coherence invariant + answers action property); every model transition replayed on a real MappingSchema per dialect and judged against a freshly constructed schema",
+        "text": "All histories of <= 3-4 public calls (constructor, add_table, column_names, has_column, get_column_type; partially qualified, quoted/unquoted, string/Identifier arguments) over a small universe of catalogs/dbs/tables/columns are enumerated by TLC for each identifier-normalisation strategy and nesting depth; ~10^6 transitions per quick run are executed on the real class and each lookup is compared with MappingSchema(final mapping) - the property's own oracle - and with the model's answer (SPEC-DRIFT). Histories a correct schema cannot distinguish but a stale cache could are kept apart by the 'touched' view abstraction.",
+        "note": "Trusted: the renderer of abstract names into dialect-quoted identifiers; fresh oracle = MappingSchema(deepcopy(mapping), normalize=False) with .normalize restored. match_depth=False and column-less tables are outside the modelled contract.",
+    },
     "C08": {
         "engine": "Ast",
         "design_ref": "DESIGN.md section 5, C08",
